@@ -44,6 +44,9 @@ CONFIGS = [
     {"name": "no-apps", "apps": [], "peers": 1, "timers": {"cer": 2, "cea": 2, "wakeup": 3}, "ptimers": {}},
     {"name": "three-peers/wakeup6", "apps": [{"app_id": 4, "auth": True, "peers": [0, 1, 2]}],
      "peers": 3, "timers": {"cer": 5, "cea": 5, "wakeup": 6}, "ptimers": {"cea": 9}},
+    # the peer is CONFIGURED with upper-case letters in its name (DiameterIdentity is case-insensitive)
+    {"name": "auth4/configured-name-mixed-case", "apps": [{"app_id": 4, "auth": True, "peers": [0]}],
+     "peers": 1, "timers": {"cer": 4, "cea": 4, "wakeup": 2}, "ptimers": {}, "configured_names": ["Peer1.EXAMPLE"]},
 ]
 SYMS_IN = ["CER_known", "CER_known_case", "CER_unknown", "CER_nocommon", "CER_relay", "CEA_2001", "CEA_3xxx", "CEA_5xxx",
            "DWR", "DWA", "DPR", "DPA", "REQ", "ANS", "ADV1", "ADVT"]
@@ -55,7 +58,8 @@ CER_SYMS = {"CER_known", "CER_known_case", "CER_unknown", "CER_nocommon", "CER_r
 def world_cfg(c, direction, seed=0):
     peers = []
     for i in range(c["peers"]):
-        p = {"name": f"peer{i + 1}.example", "ip": [f"10.1.1.{i + 1}"]}
+        p = {"name": (c.get("configured_names") or [])[i] if i < len(c.get("configured_names") or []) else f"peer{i + 1}.example",
+             "ip": [f"10.1.1.{i + 1}"]}
         if i == 0:
             p["timers"] = dict(c["ptimers"])
             if direction == "out":
@@ -242,7 +246,7 @@ def evaluate(case) -> Result:
                         elif glued:
                             new_req = 0
                         if want == 2001:
-                            peer = w.node.peers.get("peer1.example")
+                            peer = w.node.peers.get("peer1.example") or w.node.peers.get(cfg["peers"][0]["name"])
                             if glued in ("DPR", "DPA"):
                                 pass                  # the connection is already on its way out again
                             elif not is_ready:
@@ -285,7 +289,7 @@ def evaluate(case) -> Result:
                         if not conn.node_closed:
                             res.v("C06/out/cea/rejected-open", f"{s}: connection not closed")
                         else:
-                            peer = w.node.peers.get("peer1.example")
+                            peer = w.node.peers.get("peer1.example") or w.node.peers.get(cfg["peers"][0]["name"])
                             if peer is not None and peer.disconnect_reason != peer_mod.DISCONNECT_REASON_CER_REJECTED:
                                 res.v("C06/out/cea/reason", f"disconnect_reason {peer.disconnect_reason}")
                         state = "closed"
@@ -516,6 +520,11 @@ def shard_main(shard, nshards, tier, scale):
     schedule_part(rec, shard, nshards, thorough)
     depth = 4 if thorough else 3
     jobs = []
+    for direction, syms in (("in", SYMS_IN), ("out", SYMS_OUT)):
+        for d in (1, 2):
+            for seq in itertools.product(syms, repeat=d):
+                if valid_seq(direction, seq):
+                    jobs.append({"cfg": len(CONFIGS) - 1, "dir": direction, "syms": list(seq)})
     for ci in (0, 1):
         for direction, syms in (("in", SYMS_IN), ("out", SYMS_OUT)):
             for d in range(1, depth + 1):
@@ -580,7 +589,7 @@ def run(tier, scale=1.0):
         rec.merge(d)
     required = {"dir:in": 1, "dir:out": 1, "outcome:ready": 1, "outcome:3010": 1, "outcome:5010": 1,
                 "outcome:rejected": 1, "outcome:timeout": 1, "noise:True": 1, "len:6": 1,
-                "schedule-exploration": 1, "other-peers-ready:2": 1, "pipelined-behind-rejected-cer": 1, "pipelined-behind-rejected-cea": 1}
+                "schedule-exploration": 1, "cfg:auth4/configured-name-mixed-case": 1, "other-peers-ready:2": 1, "pipelined-behind-rejected-cer": 1, "pipelined-behind-rejected-cea": 1}
     return finish(rec, tier=tier, level="exploration", rule=RULE, assumptions=ASSUME, t0=t0,
                   required_classes=required,
                   extra_cov={"exhaustive_part": "all symbol sequences up to the enumeration depth for 2 base configurations x 2 directions"})
